@@ -83,6 +83,11 @@ def loopFuel {σ ρ : Type} (body : σ → Res (LStep σ ρ)) : Nat → σ → R
 /-- `u32::decode_fixed(s)` of integer-encoding 3.0.4 (asserts the length) -/
 @[inline] def decodeFixed32Chk (s : Bytes) (site : String) : Res Nat :=
   if s.length = 4 then .ok (decodeFixed32 s) else .panic site
+/-- `opt.unwrap()` -/
+@[inline] def unwrapO {α : Type} (o : Option α) (site : String) : Res α :=
+  match o with
+  | some a => .ok a
+  | none => .panic site
 @[inline] def assertR (c : Bool) (site : String) : Res Unit :=
   if c then .ok () else .panic site
 @[inline] def byteLit (n : Nat) : UInt8 := UInt8.ofNat n
